@@ -10,13 +10,13 @@ use vlib::report::{par_for, Deadline, Report, Tier};
 use crate::qcheck::{build_or_report, run_queries};
 use crate::query::prefix_queries;
 
-/// every byte string of length <= 3 over {00, 7F, FF} plus length-4 strings (stored 3-byte keys
+/// every byte string of length <= 3 over {00, 01, FF} plus length-4 strings (stored 3-byte keys
 /// extended by one byte, and FF FF FF FF)
 pub fn universe_prefixes(model: &Model) -> Vec<Vec<u8>> {
     let mut p = universe();
     for (k, _) in &model.entries {
         if k.len() == 3 {
-            for a in [0x00u8, 0x7F, 0xFF] {
+            for a in vlib::fam::UNIVERSE_ALPHABET {
                 let mut s = k.clone();
                 s.push(a);
                 p.push(s);
@@ -24,7 +24,9 @@ pub fn universe_prefixes(model: &Model) -> Vec<Vec<u8>> {
         }
     }
     p.push(vec![0xFF; 4]);
-    p.push(vec![0x7F, 0xFF, 0xFF, 0xFF]);
+    p.push(vec![0x01, 0xFF, 0xFF, 0xFF]);
+    p.push(vec![0x02]);
+    p.push(vec![0x00, 0x02]);
     p.push(vec![0x00, 0x00, 0x00, 0x00]);
     p.sort();
     p.dedup();
@@ -92,7 +94,7 @@ pub fn run(tier: Tier) -> i32 {
         }
     });
     rep.acc = acc;
-    rep.set("rule", json!("E2: all key subsets of size <= m of the 40 byte strings of length <= 3 over {00,7F,FF} (x 5 layout/padding variants so reverse walks cross blocks and index blocks) x every byte string of length <= 3 over that alphabet plus length-4 extensions as prefix x {forward, reverse}; plus deep and shape files with key-derived prefixes; oracle = keys.filter(starts_with), reversed for the reverse iterator; distinct_nontrivial = prefix queries on files where some level has >= 2 blocks"));
+    rep.set("rule", json!("E2: all key subsets of size <= m of the 40 byte strings of length <= 3 over {00,01,FF} (x 5 layout/padding variants so reverse walks cross blocks and index blocks) x every byte string of length <= 3 over that alphabet plus length-4 extensions as prefix x {forward, reverse}; plus deep and shape files with key-derived prefixes; oracle = keys.filter(starts_with), reversed for the reverse iterator; distinct_nontrivial = prefix queries on files where some level has >= 2 blocks"));
     rep.set("bound", json!({"universe_max_subset_size": tier.pick(3, 4), "key_subsets": subsets.len(), "variants": cfgs.len(), "other_files": others.len()}));
     rep.finish()
 }
